@@ -305,10 +305,6 @@ func enumerate(quick bool, yield func(p *Program) bool) {
 							return
 						}
 					}
-					if shape == "S" && len(to.Path) > 0 && staticValueFor(to.Leaf) != nil {
-						// a static value next to a plain dependency is not a mapping set; statics are enumerated with sets
-						continue
-					}
 				}
 			}
 		}
